@@ -37,6 +37,7 @@
 #include "inputdatastorage.h"
 
 #include <pthread.h>
+#include <time.h>
 
 
 
@@ -70,6 +71,13 @@ void   snoopy_tsrm_dtor ();
 snoopy_configuration_t*    snoopy_tsrm_get_configuration    ();
 snoopy_inputdatastorage_t* snoopy_tsrm_get_inputdatastorage ();
 int                        snoopy_tsrm_get_threadCount      ();
+
+
+
+/*
+ * Wrappers for libc functions that must not be in progress during fork()
+ */
+struct tm*                 snoopy_tsrm_localtime_r          (const time_t *timep, struct tm *result);
 
 
 
